@@ -312,11 +312,17 @@ SrcIn(l, p) == InPlaced(l.shape, p) /\ InClips(l.clips, p)
 SrcStack(layers, p) == StackAt(layers, SrcIn, p)
 
 (* output side: layer == [polys |-> Seq(point list in 1/64 units), rule, paint, e, grp]  *)
-(* bb = <<xmin, ymin, xmax, ymax>> of the polygons (a pure accelerator: outside it the    *)
-(* winding number is 0 under either rule)                                                *)
+(* bb = <<xmin, ymin, xmax, ymax>> of the layer and pb[k] of its k-th contour (pure accelerators: *)
+(* a contour contributes no winding to a point outside its bounding box)                          *)
+RECURSIVE WindAllBB(_, _, _, _, _)
+WindAllBB(cs, pb, q, i, acc) ==
+  IF i > Len(cs) THEN acc
+  ELSE WindAllBB(cs, pb, q, i + 1,
+                 IF pb[i][1] <= q[1] /\ q[1] <= pb[i][3] /\ pb[i][2] <= q[2] /\ q[2] <= pb[i][4]
+                 THEN acc + WindPoly(cs[i], q, 1, 0) ELSE acc)
 OutIn(l, p) == /\ l.bb[1] <= 8 * p[1] /\ 8 * p[1] <= l.bb[3]
                /\ l.bb[2] <= 8 * p[2] /\ 8 * p[2] <= l.bb[4]
-               /\ ByRule(WindAll(l.polys, <<8 * p[1], 8 * p[2], 1>>, 1, 0), l.rule)
+               /\ ByRule(WindAllBB(l.polys, l.pb, <<8 * p[1], 8 * p[2], 1>>, 1, 0), l.rule)
 OutStack(layers, p) == StackAt(layers, OutIn, p)
 
 Nbrs(p) == { <<p[1] + dx, p[2] + dy>> : dx \in {-1, 0, 1}, dy \in {-1, 0, 1} }
